@@ -1,7 +1,9 @@
 (* C03 — mixins bind arguments, attributes and block content per call.
    Property theorems only (about the executor model Tmpl/Exec.v after repair 40255c5, for all programs, states and
-   fuel); proofs are in Proofs/C03Proofs.v. *)
-From PV Require Import Base.Bytes Js.Ast Pug.Ast Pug.Compile Tmpl.Value Tmpl.IR Tmpl.Runtime Tmpl.Exec Proofs.ExecMono Proofs.C03Proofs.
+   fuel; about the compiler state a directory of files is loaded with, Models/PageDir.v); proofs are in Proofs/C03Proofs.v and
+   Proofs/C03PageProofs.v. *)
+From PV Require Import Base.Bytes Js.Ast Pug.Ast Pug.Compile Tmpl.Value Tmpl.IR Tmpl.Runtime Tmpl.Exec Models.PageDir Proofs.ExecMono Proofs.C03Proofs Proofs.C03PageProofs.
+From Coq Require Import Permutation.
 
 (* "every call independently … never see another call's arguments or block": whatever a body does — any nesting
    of calls, blocks, loops, recursion — it changes only the executing frame; every frame below it is untouched. *)
@@ -117,3 +119,45 @@ Theorem C03_pure_forwarding_gets_own_block : forall funcs dbg f raw st name,
     /\ call_site_shape name (B "block_" ++ name ++ B "_" ++ show_nat (cs_counter st)) ts.
 Proof. exact pure_forward_gets_own_block. Qed.
 Print Assumptions C03_pure_forwarding_gets_own_block.
+
+(* "A mixin body sees the page data": the page data of a frame (`globals`, what every mixin it calls starts from) is
+   CONSTANT - whatever the frame executes: assignments and declarations of names that are also keys of the page data,
+   loops, branches, calls, blocks - and so is its depth *)
+Theorem C03_page_data_is_constant : forall defs f dot s ns s',
+  live s -> exec_nodes defs f dot s ns = Ok s' ->
+  f_globals (cur s') = f_globals (cur s) /\ f_depth (cur s') = f_depth (cur s).
+Proof. exact exec_nodes_keeps_page_data. Qed.
+Print Assumptions C03_page_data_is_constant.
+
+(* ... hence: after ANY statements of the caller, a mixin body starts with the page data the caller's frame was given *)
+Theorem C03_mixin_sees_page_data_after_any_statements : forall defs f dot s ns s1 name arg body newdot s3,
+  live s -> exec_nodes defs f dot s ns = Ok s1 ->
+  template_plan defs dot s1 name false arg = Ok (Some (body, newdot, s3)) ->
+  ~ In name (map fst (f_bound (cur s1))) ->
+  f_vars (cur s3) = f_globals (cur s) /\ f_globals (cur s3) = f_globals (cur s).
+Proof. exact mixin_after_anything_sees_page_data. Qed.
+Print Assumptions C03_mixin_sees_page_data_after_any_statements.
+
+(* "Calling a mixin renders ITS body": the template a page compiles to is the one it compiles to alone, whatever
+   other files (defining mixins of the same names or not) the same load compiles, in whatever order the directory
+   listing gives them (Engine.compileDir: a compiler state per file) *)
+Theorem C03_page_independent_of_siblings : forall funcs dbg files files' name nodes,
+  NoDup (map fst files) -> Permutation files files' -> In (name, nodes) files ->
+  lookup name (load_dir funcs dbg files') = lookup name (load_dir funcs dbg [(name, nodes)]).
+Proof. exact page_independent_of_siblings. Qed.
+Print Assumptions C03_page_independent_of_siblings.
+
+(* with one compiler state for the files of a directory the statement is false (the first definition of a mixin
+   name wins: the page listed later calls the other page's mixin), and which page is wrong depends on the listing *)
+Theorem C03_shared_compiler_state_refuted :
+  exists funcs dbg files name,
+    NoDup (map fst files) /\ lookup name (load_dir_shared funcs dbg cs0 files) <> lookup name (load_dir funcs dbg files).
+Proof. exact shared_compiler_state_refuted. Qed.
+Print Assumptions C03_shared_compiler_state_refuted.
+
+Theorem C03_shared_compiler_state_order_dependent :
+  exists funcs dbg files files' name,
+    Permutation files files' /\
+    lookup name (load_dir_shared funcs dbg cs0 files) <> lookup name (load_dir_shared funcs dbg cs0 files').
+Proof. exact shared_compiler_state_order_dependent. Qed.
+Print Assumptions C03_shared_compiler_state_order_dependent.
